@@ -41,6 +41,9 @@ func (h *anteH) randFreezeCfg(nval int) cfgSpec {
 		s.minVal = pick(r, []uint64{1 << 63, 1<<64 - 1, 1<<63 - 1}) // int(uint64) cast corner
 	}
 	s.poor = subset(r, []string{"send", "multisend", "custody_send", "register_identity_records", "upsert_token_info", "claim_councilor", "submit_proposal"}, 0.6)
+	if r.Rng.Intn(6) == 0 {
+		s.poor = nil // the empty list: in restricted mode only small native transfers pass
+	}
 	for _, d := range []string{"ubtc", "xeth", "frozen", "ueth", "tka"} {
 		s.toks = append(s.toks, tokSpec{denom: d, rate: pick(r, []string{"1", "10", "0.1"}), feeOn: r.Rng.Intn(6) != 0})
 	}
